@@ -190,11 +190,12 @@ func (fc *FnCtx) execInstr(fr *Frame, st *State, reach string, ins ssa.Instructi
 				}
 			}
 			for _, cl := range con.Requires {
+				if !cl.AtCreation {
+					continue
+				}
 				env := fc.specEnv(st, nil, vars, con.Pkg, nil, cl.Text)
 				for _, part := range splitConj(cl.Expr) {
-					if tm, ok := env.tryBool(part); ok {
-						fc.oblige(fr, "requires", "closure "+shortFn(v.Fn)+" (captured state at creation): "+clauseName(cl), reach, tm, env.quant, nil)
-					}
+					fc.oblige(fr, "requires", "closure "+shortFn(v.Fn)+" (captured state at creation): "+clauseName(cl), reach, env.evalBool(part), env.quant, nil)
 				}
 			}
 		}
